@@ -220,6 +220,30 @@ func (g *lfGen) vec(depth int) string {
 			return fmt.Sprintf("(sum by (%s, %s) (%s without (%s) (%s)) %s on(%s)%s max without (%s) (%s))",
 				l1, l2, hx.Pick(g.rr, []string{"sum", "max"}), l1, g.selector(), op, l1, mod, l1, g.selector())
 		}
+		if g.rr.Intn(4) == 0 {
+			// a label guaranteed by a matcher, kept by an inner by(...) (or an on(...) join), dropped by an outer by(...),
+			// then a join that looks at guaranteed labels (no on): seeded change C12-by-over-fixed-keeps-guarantees
+			l1 := hx.Pick(g.rr, lfLabels)
+			l2 := hx.Pick(g.rr, lfLabels)
+			for l2 == l1 {
+				l2 = hx.Pick(g.rr, lfLabels)
+			}
+			agg := hx.Pick(g.rr, []string{"sum", "max", "min"})
+			inner := g.selectorWith(fmt.Sprintf(`%s="%s"`, l1, hx.Pick(g.rr, lfValues)))
+			var left string
+			if g.rr.Intn(3) == 0 {
+				left = fmt.Sprintf("%s by (%s) (%s * on(%s, %s) %s)", agg, l2, inner, l1, l2, g.selector())
+			} else {
+				left = fmt.Sprintf("%s by (%s) (%s by (%s, %s) (%s))", agg, l2, agg, l1, l2, inner)
+			}
+			right := fmt.Sprintf("%s by (%s) (%s)", agg, l2, g.selector())
+			op := hx.Pick(g.rr, []string{"*", ">", "and", "unless"})
+			mod := hx.Pick(g.rr, []string{"", " ignoring(" + l1 + ")", " ignoring(c) group_left()"})
+			if op == "and" || op == "unless" {
+				mod = hx.Pick(g.rr, []string{"", " ignoring(c)"})
+			}
+			return fmt.Sprintf("(%s %s%s %s)", left, op, mod, right)
+		}
 		if !g.c12 && g.rr.Intn(4) == 0 {
 			// group_left / group_right copying in a label that the "many" side has explicitly lost
 			l := hx.Pick(g.rr, lfLabels)
